@@ -658,7 +658,12 @@ class FnView:
             if at is not None and not self.def_reaches(b, i, at):
                 continue
             F = tuple(self._named_fields(s["lhs"]["p"]))
-            for o in self._origins_local(base, (), False, visiting | {(l, proj, at)}, (b, i)):
+            self._zip_all = True       # what the written-through pointer points into: zip components count
+            try:
+                base_os = self._origins_local(base, (), False, visiting | {(l, proj, at)}, (b, i))
+            finally:
+                self._zip_all = False
+            for o in base_os:
                 r = roots.get((o.kind, o.a, o.b))
                 if r is None:
                     continue
@@ -939,6 +944,11 @@ class FnView:
                 return r
         if proj and callee in ("std::vec::Vec::new", "std::vec::Vec::with_capacity"):
             return set()     # an empty vector has no elements: element reads see what was pushed (see _origins_local)
+        if (taint or getattr(self, "_zip_all", False)) and callee.endswith("as std::iter::Iterator>::zip") and len(t["args"]) == 2 and proj and str(proj[0]) in ("0", "1") \
+                and not (self._stop is not None and self._stop.search(callee)):
+            # the pairs of a zip (dependency mode only: which values a pair component may depend on): component 0 is an element
+            # of the receiver, component 1 an element of the argument
+            return self._origins_op(t["args"][int(proj[0])], proj[1:], taint, visiting, at)
         if callee == "std::array::map" and len(t["args"]) == 2:
             # `arr.map(T::from)`: element k of the result is the conversion of element k of the array
             f = self._origins_op(t["args"][1], (), False, visiting, at)
